@@ -32,8 +32,30 @@ class Crate:
         self.traits = {t["path"]: t for t in self.j["traits"]}
         self.mods = {m["path"]: m for m in self.j.get("mods", [])}
 
+    # ---- inlining policy: helpers NOT named in `keep` are spliced into their callers
+    def inline_except(self, keep):
+        self._keep = tuple(keep)
+        self._inl_cache = {}
+
+    def _should_inline(self, callee):
+        keep = getattr(self, "_keep", None)
+        if keep is None:
+            return False
+        if callee.j.get("impl_trait"):
+            return False  # trait impl methods are semantic anchors
+        n = callee.name
+        return not any(n == k or callee.path.endswith("::" + k) for k in keep)
+
+    def inl(self, f):
+        if f is None or getattr(self, "_keep", None) is None or isinstance(f, InlinedFn):
+            return f
+        c = self._inl_cache
+        if f.path not in c:
+            c[f.path] = inline_fn(f, self._should_inline)
+        return c[f.path]
+
     def fn(self, path):
-        return self.by_path.get(path)
+        return self.inl(self.by_path.get(path))
 
     def find_fns(self, pred):
         return [f for f in self.fns if pred(f)]
@@ -53,7 +75,7 @@ class Crate:
                     continue
             elif tr is None or not (tr == trait or tr.endswith("::" + trait)):
                 continue
-            out.append(f)
+            out.append(self.inl(f))
         return out
 
     def impls_of(self, trait_suffix):
@@ -984,3 +1006,159 @@ def sym_str(s, depth=0):
     if h == "index":
         return f"{sym_str(s[1], depth + 1)}[{sym_str(s[2], depth + 1)}]"
     return str(s[:2])
+
+
+# --------------------------------------------------------------------------------------------
+# MIR inliner: makes "extract a private helper" / "inline a private helper" refactorings invisible
+# --------------------------------------------------------------------------------------------
+import copy
+
+
+def _shift_place(p, loff):
+    q = {"l": p["l"] + loff}
+    pr = p.get("pr")
+    if pr:
+        npr = []
+        for e in pr:
+            if isinstance(e, dict) and "idx" in e:
+                e = dict(e)
+                e["idx"] = e["idx"] + loff
+            npr.append(e)
+        q["pr"] = npr
+    return q
+
+
+def _shift_op(o, loff):
+    if "copy" in o:
+        return {"copy": _shift_place(o["copy"], loff)}
+    if "move" in o:
+        return {"move": _shift_place(o["move"], loff)}
+    return o
+
+
+def _shift_rv(rv, loff):
+    rv = dict(rv)
+    for k in ("a", "b"):
+        if isinstance(rv.get(k), dict):
+            rv[k] = _shift_op(rv[k], loff)
+    if isinstance(rv.get("p"), dict):
+        rv["p"] = _shift_place(rv["p"], loff)
+    if "ops" in rv:
+        rv["ops"] = [_shift_op(o, loff) for o in rv["ops"]]
+    return rv
+
+
+def _shift_target(t, boff):
+    return t + boff if isinstance(t, int) else t
+
+
+class InlinedFn(Fn):
+    """A function whose calls to same-crate helper functions have been spliced in (up to `depth` levels)."""
+
+    def __init__(self, base, mir, extra_children):
+        self.crate = base.crate
+        self.j = dict(base.j)
+        self.j["mir"] = mir
+        self.path = base.path
+        self.dk = base.dk
+        self.name = base.name
+        self.children = list(base.children) + extra_children
+        self.parent = base.parent
+        self._body = None
+        self.base = base
+
+
+def inline_fn(fn, should_inline, depth=4, max_blocks=1500):
+    """Returns an InlinedFn for `fn`.  `should_inline(callee_fn)` decides per callee."""
+    crate = fn.crate
+    m = fn.j["mir"]
+    locals_ = list(m["locals"])
+    blocks = [dict(b) for b in m["blocks"]]
+    extra_children = []
+    # worklist of (block index, stack of paths, depth)
+    work = [(i, (fn.path,), 0) for i in range(len(blocks))]
+    n_inlined = 0
+    while work:
+        bi, stack, d = work.pop()
+        if len(blocks) > max_blocks:
+            break
+        b = blocks[bi]
+        t = b.get("t")
+        if not t or t.get("k") != "call" or d >= depth:
+            continue
+        if t.get("rkind") not in (None, "item"):
+            continue
+        cal = crate.by_path.get(t.get("resolved") or "") or crate.by_path.get(t.get("callee") or "")
+        if cal is None or cal.dk not in ("Fn", "AssocFn") or cal.path in stack or not should_inline(cal):
+            continue
+        cm = cal.j["mir"]
+        if len(cm["blocks"]) > 400:
+            continue
+        loff = len(locals_)
+        boff = len(blocks) + 1  # +1: landing block first
+        landing = len(blocks)
+        for l in cm["locals"]:
+            locals_.append(dict(l))
+        # landing block: dest = move ret; goto target
+        ret_local = loff
+        land_stmts = [{"k": "assign", "p": t["dest"], "rv": {"k": "use", "a": {"move": {"l": ret_local}}}, "ln": t.get("ln"), "exp": t.get("exp")}]
+        if t.get("target") is not None:
+            land_term = {"k": "goto", "target": t["target"], "ln": t.get("ln")}
+        else:
+            land_term = {"k": "unreachable", "ln": t.get("ln")}
+        blocks.append({"s": land_stmts, "t": land_term, "cleanup": b.get("cleanup")})
+        # callee blocks
+        for cb in cm["blocks"]:
+            ns = []
+            for s in cb["s"]:
+                s2 = dict(s)
+                if s["k"] == "assign":
+                    s2["p"] = _shift_place(s["p"], loff)
+                    s2["rv"] = _shift_rv(s["rv"], loff)
+                elif s["k"] == "setdiscr":
+                    s2["p"] = _shift_place(s["p"], loff)
+                elif s["k"] in ("live", "dead"):
+                    s2["l"] = s["l"] + loff
+                ns.append(s2)
+            ct = cb.get("t") or {"k": "none"}
+            nt = dict(ct)
+            k = ct.get("k")
+            if k == "return":
+                nt = {"k": "goto", "target": landing, "ln": ct.get("ln")}
+            elif k == "resume":
+                uw = t.get("unwind")
+                nt = {"k": "goto", "target": uw, "ln": ct.get("ln")} if isinstance(uw, int) else dict(ct)
+            else:
+                for key in ("target", "otherwise", "drop"):
+                    if key in nt:
+                        nt[key] = _shift_target(nt[key], boff)
+                if isinstance(nt.get("unwind"), int):
+                    nt["unwind"] = nt["unwind"] + boff
+                elif "unwind" in nt and nt.get("unwind") == "continue" and isinstance(t.get("unwind"), int):
+                    nt["unwind"] = t["unwind"]
+                if "arms" in nt:
+                    nt["arms"] = [dict(a, bb=a["bb"] + boff) for a in nt["arms"]]
+                if "discr" in nt:
+                    nt["discr"] = _shift_op(nt["discr"], loff)
+                if "cond" in nt:
+                    nt["cond"] = _shift_op(nt["cond"], loff)
+                if "args" in nt:
+                    nt["args"] = [_shift_op(o, loff) for o in nt["args"]]
+                if "dest" in nt:
+                    nt["dest"] = _shift_place(nt["dest"], loff)
+                if "p" in nt and isinstance(nt["p"], dict):
+                    nt["p"] = _shift_place(nt["p"], loff)
+                if "callee_op" in nt:
+                    nt["callee_op"] = _shift_op(nt["callee_op"], loff)
+            blocks.append({"s": ns, "t": nt, "cleanup": cb.get("cleanup") or b.get("cleanup")})
+        # rewrite the call block: bind arguments, jump into the callee
+        new_stmts = list(b["s"])
+        for i, a in enumerate(t["args"]):
+            new_stmts.append({"k": "assign", "p": {"l": loff + 1 + i}, "rv": {"k": "use", "a": a}, "ln": t.get("ln"), "exp": t.get("exp")})
+        blocks[bi] = {"s": new_stmts, "t": {"k": "goto", "target": boff, "ln": t.get("ln")}, "cleanup": b.get("cleanup")}
+        n_inlined += 1
+        extra_children.extend(cal.children)
+        for j in range(boff, len(blocks)):
+            work.append((j, stack + (cal.path,), d + 1))
+    mir = {"argc": m["argc"], "locals": locals_, "dbg": m.get("dbg", []), "blocks": blocks, "inlined": n_inlined}
+    return InlinedFn(fn, mir, extra_children)
